@@ -42,7 +42,7 @@ non-trivial = now within 1 s of a bound / windows that overlap or touch. serial-
 high-bit-set first octet), neighbour/equal/independent second array, decimal strings derived by padding, signs, extra \
 digits, garbage, values around 2^159; oracle = 5x32-bit limb arithmetic (long division by 10^9, schoolbook parse), minimal \
 DER writer, numeric order == order of (length, bytes) of minimal encodings; non-trivial = pair of distinct values / \
-string that is not the canonical rendering.";
+string that is not the canonical rendering. validity also decodes each window with either end in the other time form (DER and BER mode): refused or the same window. Serial text with a leading '+' or surrounding white space is don't-care (if accepted it means the number written).";
 
 //------------ calendar ---------------------------------------------------------
 
